@@ -1,6 +1,7 @@
 """Configuration of ./check C17 (see cfg/README)."""
 
-PROP = {'modules': ['SfntV.Props.C17'],
+PROP = {'drive': ['Parser'],
+ 'modules': ['SfntV.Props.C17'],
  'required_theorems': ['C17_refines', 'C17_histories', 'C17_spec_fixed', 'C17_spec_bulk'],
  'areas': [('parser', 3000, 60000)],
  'rule': 'distinct case lines (input bytes, chunk oracle, op history); non-trivial = history of >= 2 ops on '
